@@ -324,7 +324,7 @@ func (u *XUpstream) react(c *sim.Conn, r *ReqRec, up *UpRec) {
 	}
 	lab := fmt.Sprintf("up:%s:req#%d", a.Kind, r.Idx)
 	switch a.Kind {
-	case "reply", "":
+	case "reply", "", "reply_connclose": // (the HTTP/1 "Connection: close" variant is a plain reply here)
 		u.S.After(a.Delay, lab, func() { u.send(c, up, mk()); finish() })
 	case "never":
 		u.S.Fault("up_never")
